@@ -443,7 +443,10 @@ class Interp:
             bt,_=s.tp.parse(args[0]); pt,pv=s.typed(env,args[1]); idx=[s.typed(env,a)[1] for a in args[2:]]
             return s.gep(bt,pv,idx)
         if txt.startswith('bitcast') or txt.startswith('inttoptr') or txt.startswith('ptrtoint') or txt.startswith('addrspacecast'):
-            m=re.match(r'\w+ \((.*) to .*\)$',txt); return s.typed(env,m.group(1))[1]
+            m=re.match(r'\w+ \((.*) to .*\)$',txt); v=s.typed(env,m.group(1))[1]
+            if txt.startswith('ptrtoint') and isinstance(t,IntT) and t.w<64 and isinstance(v,Ptr) and v.obj in s.mem.objs and 'addr' in s.mem.objs[v.obj] and is_c(v.off):
+                return (s.mem.objs[v.obj]['addr']+v.off)&mask(t.w)      # truncated address of a symbol in an object with a nominal base address (only differences are meaningful)
+            return v
         m=re.match(r'(add|sub|mul|and|or|xor|shl|lshr|ashr|udiv|urem|sdiv|srem) (?:nsw |nuw |exact )*\((.*)\)$',txt)
         if m:
             a,b=[s.typed(env,x)[1] for x in split_top(m.group(2))]
